@@ -203,6 +203,34 @@ func registerCodecs(m map[string]Intrinsic) {
 		}
 		return val(e.ConcStr(s.Enc.Coding))
 	}
+	m[hp+"verifDecodeBody"] = func(e *Exec, st *State, ci *CallInfo) Outcome {
+		chunks := e.sliceElems(st, ci.Args[0].(*SliceV))
+		coding := mustConc(ci.Args[1], "coding")
+		fail := tuple(&Str{IsConc: true, Nil: true}, e.C.False)
+		if coding == "" {
+			out := e.ConcStr("")
+			for _, c := range chunks {
+				s := c.(*Str)
+				if s.Enc != nil {
+					return val(fail)
+				}
+				out = e.Concat(out, s)
+			}
+			return val(tuple(out, e.C.True))
+		}
+		if len(chunks) != 1 {
+			return val(fail)
+		}
+		s := chunks[0].(*Str)
+		if s.Enc == nil || s.Enc.Coding != coding {
+			return val(fail)
+		}
+		out := e.ConcStr("")
+		for _, c := range s.Enc.Payload {
+			out = e.Concat(out, c)
+		}
+		return val(tuple(out, e.C.True))
+	}
 	m[hp+"verifEncChunks"] = func(e *Exec, st *State, ci *CallInfo) Outcome {
 		s := sArg(ci, 0)
 		if s.Enc == nil {
